@@ -205,47 +205,6 @@ fn c20_value_scalars_serialize() {
     std::mem::forget(vb);
 }
 
-fn char_case(c: char) {
-    match to_koto_value(c) {
-        Ok(v) => {
-            assert!(matches!(&v, KValue::Str(s) if s.len() == c.len_utf8()), "C20.char: a char becomes a string of its UTF-8 length");
-            match from_koto_value::<char>(v) {
-                Ok(d) => assert!(d == c, "C20.char: a char converted to a Koto value and back is unchanged"),
-                Err(e) => {
-                    std::mem::forget(e);
-                    assert!(false, "C20.char: a converted char converts back");
-                }
-            }
-        }
-        Err(e) => {
-            std::mem::forget(e);
-            assert!(false, "C20.char: chars serialize");
-        }
-    }
-}
-
-// @props C20
-// @tier thorough
-// @fns Serializer::serialize_char (encode_utf8 -> Str), Deserializer::deserialize_char
-// @bound one character of each UTF-8 length with symbolic low bits: U+0041 | 5 bits, U+00C0 | 5 bits, U+5B40 | 5 bits, U+1D100 | 5 bits (a fully symbolic scalar value did not finish in 1500 s: string construction with a symbolic length)
-// @assume std::fmt::format stubbed; lazy! cut
-// @kani --no-memory-safety-checks --no-assertion-reach-checks
-// @timeout 2400
-// @mem 12
-#[kani::proof]
-#[kani::unwind(7)]
-#[kani::stub(std::fmt::format, stub_format)]
-#[kani::stub(std::rt::thread_cleanup, noop_thread_cleanup)]
-fn c20_char_roundtrip() {
-    let low: u32 = kani::any();
-    kani::assume(low < 32);
-    let bases = [0x41u32, 0xC0, 0x5B40, 0x1D100];
-    let mut i = 0;
-    while i < 4 {
-        if let Some(c) = char::from_u32(bases[i] | low) {
-            char_case(c);
-        }
-        i += 1;
-    }
-    kani::cover!(low == 30, "low bits 30");
-}
+// DROPPED: char round trip (serialize_char -> Str -> deserialize_char). Neither a fully symbolic scalar value (1500 s) nor one
+// character per UTF-8 length with five symbolic low bits (2400 s) finished: the string construction and the
+// `chars().count()` scan over a heap string of symbolic length are outside what CBMC handles here.
